@@ -34,7 +34,7 @@ from ..cfg import cfg_of
 from ..flow import describe_path, find_path as flow_find_path, no_exc as _no_exc
 from ..linexpr import Env, Lin, NONE, Seq, fresh, local_edges, loop_heads, paths_from, run_steps, segments
 from ..model import AnchorError, Func, UnknownIdiom, dotted, short, unparse
-from .c07_helpers import (ASGI, BUDGET, WSGI, DelEnv, Inliner, Verdicts, asgi_constructor, asgi_drained, asgi_indexing, asgi_initial_position, asgi_keys, asgi_loops,
+from .c07_helpers import (ASGI, BUDGET, WSGI, DelEnv, Inliner, Verdicts, dealiased_view, asgi_constructor, asgi_drained, asgi_indexing, asgi_initial_position, asgi_keys, asgi_loops,
                           asgi_positions, lazy_wrapping, require_attrs, run_steps_inl)
 from .common import ancestors, enclosing_map, implied, walk_self
 
@@ -56,7 +56,8 @@ class Wsgi:
     def __init__(self, run):
         p = run.project
         self.p = p
-        self.cls = p.cls(WSGI)
+        # (locals that are a bound method -- `read = self.read`, `append = lines.append` -- are written out again)
+        self.cls = dealiased_view(p, p.cls(WSGI), inner_methods=CONTRACT)
         init = p.func(WSGI + '.__init__')
         require_attrs(p, WSGI, [BUDGET])
         params = [a for a in init.params() if a != 'self']
@@ -87,7 +88,13 @@ class Wsgi:
     def _callee(self, f, c):
         if isinstance(c.func, ast.Name) and c.func.id == 'next' and len(c.args) == 1 and dotted(c.args[0]) == 'self':
             return self.cls.methods.get('__next__')
-        return self.p.callee(f, c)
+        return self.own(self.p.callee(f, c))
+
+    def own(self, t):
+        """The class's own (de-aliased) reading of a method the project resolved."""
+        if isinstance(t, Func) and t.cls is not None and t.cls.qual == self.cls.qual and t.parent is None:
+            return self.cls.methods.get(t.name, t)
+        return t
 
     def reading_methods(self):
         """Qualnames of the methods that read from the raw stream, directly or through other methods of the class."""
@@ -760,7 +767,7 @@ class _EmptyCompare(ast.NodeTransformer):
             a, b = n.left, n.comparators[0]
             if _is_empty_const(a) and not _is_empty_const(b):
                 a, b = b, a
-            if _is_empty_const(b) and isinstance(a, (ast.Name, ast.Call)):
+            if _is_empty_const(b) and isinstance(a, (ast.Name, ast.Call, ast.NamedExpr)):
                 return ast.copy_location(ast.Compare(ast.Call(ast.Name('len', ast.Load()), [a], []), [n.ops[0]], [ast.Constant(0)]), n)
         return n
 
@@ -807,6 +814,8 @@ def _exact_test(w, f, atom, rd, direct):
             return term(x.left) and term(x.right)
         if isinstance(x, ast.Call) and isinstance(x.func, ast.Name) and x.func.id == 'len' and len(x.args) == 1 and not x.keywords:
             a = x.args[0]
+            if isinstance(a, ast.NamedExpr):
+                a = a.value             # len((chunk := self.read(n))): the length of what the read returned
             return (isinstance(a, ast.Name) and a.id in direct) or (isinstance(a, ast.Call) and w.consuming(f, a))
         if isinstance(x, ast.Call) and isinstance(x.func, ast.Name) and x.func.id in ('min', 'max') and len(x.args) >= 2 and not x.keywords:
             return all(term(a) for a in x.args)
@@ -824,10 +833,32 @@ def _exact_test(w, f, atom, rd, direct):
     return False
 
 
+def _cyclic_segments(cfg):
+    """linexpr.segments, cutting only at loop heads that lie on a cycle.  On a flag-refined graph (cfg_of(...,
+    refined=True)) the copy of a `while not done:` head that is reached with the flag set has no way back into the loop: the
+    path `if not chunk: done = True` -> head -> exit stays in ONE segment, so the facts that set the flag are still known
+    where the loop is left."""
+    ok = local_edges(cfg)
+    cuts = set()
+    for h in loop_heads(cfg):
+        seen, work = set(), [y for (y, l) in cfg.succ[h] if ok(h, y, l)]
+        while work:
+            n = work.pop()
+            if n in seen:
+                continue
+            seen.add(n)
+            work.extend(y for (y, l) in cfg.succ[n] if ok(n, y, l))
+        if h in seen:
+            cuts.add(h)
+    for c in [cfg.entry] + sorted(cuts):
+        for steps, end in paths_from(cfg, c, cuts, ok):
+            yield c, steps, end
+
+
 def _exhaust_exits(run, w, v, seen):
     """exhaust(): on every normal way out, the last read came back empty or the live budget is used up."""
     p = run.project
-    f = p.func(WSGI + '.exhaust')
+    f = w.own(p.func(WSGI + '.exhaust'))
 
     def procedure(g, call):
         t = w._callee(g, call) if isinstance(call, ast.Call) and isinstance(call.func, ast.Attribute) and dotted(call.func.value) == 'self' else None
@@ -843,7 +874,7 @@ def _exhaust_exits(run, w, v, seen):
         f = t
     if f.qual not in w.reading_methods():
         raise UnknownIdiom('%s does not read from the stream' % f.qual)
-    cfg = cfg_of(f, p)
+    cfg = cfg_of(f, p, refined=True)        # (path-sensitive for pure control flags: `done = True` ... `while not done`)
     run.use_cfg(cfg)
     c = Consumption(w, f)
     alldefs = c.defs(f.node.body)
@@ -878,7 +909,7 @@ def _exhaust_exits(run, w, v, seen):
 
     what = 'exhaust() returns only when a read came back empty or the live budget is used up'
     n = 0
-    for start, steps, end in segments(cfg):
+    for start, steps, end in _cyclic_segments(cfg):
         if end != cfg.exit:
             continue
         tests = [cfg.node(i) for i, l in steps if cfg.node(i).kind == 'test' and l in ('T', 'F')]
@@ -1279,7 +1310,7 @@ def _budget_writes(run, w, v, forced):
                 writers.add(f.qual)
                 changed = True
     called = {t.qual for f in w.methods for t in self_callees(f)}
-    at_callers = {q for q in writers if q in called and w.inliner._inlinable(p.func(q))}      # judged where they are called
+    at_callers = {q for q in writers if q in called and w.inliner._inlinable(w.own(p.func(q)))}      # judged where they are called
     what = 'the budget is forced to 0 only after a read that was asked for more than 0 bytes came back empty'
     swept = []
     for f in sorted(w.methods, key=lambda f: f.qual):
